@@ -17,9 +17,17 @@ RESERVED = {
     "NoneType": 0, "Any": 1, "Optional": 2, "Union": 3, "Literal": 4, "Callable": 5, "tuple": 6, "Never": 7,
     "nothing": 8, "Annotated": 9, "int": 10, "float": 11, "complex": 12, "bytearray": 13, "bytes": 14,
     "memoryview": 15, "self": 16, "cls": 17, "type": 18, "Type": 19, "dict": 20, "str": 21,
+    # keywords and names with a meaning for the declaration model (coq/Print/Decl.v)
+    "def": 22, "class": 23, "raise": 24, "@": 25, "object": 26, "metaclass": 27, "total": 28, "__slots__": 29,
+    "bound": 30,
 }
+# ordinary names (>= 64) that coq/Print/Decl.v fixes
+FIXED = {"staticmethod": 64, "classmethod": 65, "property": 66, "abstractmethod": 67, "coroutine": 68,
+         "__new__": 69, "__init_subclass__": 70, "__init__": 71, "__getattr__": 72, "'property'": 73}
 TYPING_POOL = ["Sequence", "Iterable", "Iterator", "Mapping", "MutableSequence", "Awaitable", "Generator",
-               "Collection", "Container", "Hashable", "Sized", "Reversible", "AbstractSet", "MutableMapping"]
+               "Collection", "Container", "Hashable", "Sized", "Reversible", "AbstractSet", "MutableMapping",
+               "TypeVar", "overload", "final", "Generic", "Protocol"]          # 46 TypeVar, 47 overload, 48 final
+TYPING_TYPES = TYPING_POOL[:14]      # the members the type generator uses as class names
 
 
 class Ids:
@@ -31,7 +39,10 @@ class Ids:
     for k, nm in enumerate(TYPING_POOL):
       self.s2i[nm] = 32 + k
       self.i2s[32 + k] = nm
-    self.next = 64
+    for nm, i in FIXED.items():
+      self.s2i[nm] = i
+      self.i2s[i] = nm
+    self.next = 80
 
   def id(self, s):
     i = self.s2i.get(s)
@@ -362,6 +373,8 @@ def tokenise(ids, text):
         i += 1
       elif s in ("[", "]", "(", ")", ",", ":", "=", "*", "**", "/", "->", "..."):
         out.append(s)
+      elif s == "@":
+        out.append("n%d" % RESERVED["@"])
       else:
         out.append("?" + s)
     elif tt == tokenize.NEWLINE:
@@ -512,7 +525,7 @@ class Gen:
   def named(self):
     r = self.r
     if r.random() < 0.12:
-      return ("N", "t", self.ids.id(r.choice(TYPING_POOL)))
+      return ("N", "t", self.ids.id(r.choice(TYPING_TYPES)))
     n = self.name(r.choice(self.simple))
     return ("N", n[0], n[1])
 
